@@ -145,7 +145,10 @@ var checks = map[string]*check{
 		req:         []string{"N.mul:basic", "N.mul:karatsuba", "N.mul:karatsuba+unbalanced", "N.mul:mulAddWW", "N.sqr:basicMul", "N.sqr:basicSqr", "N.sqr:karatsubaSqr", "N.sqr:karatsubaSqr+tail", "N.div:divW", "N.div:divBasic", "N.div:divRecursive", "N.div:small", "N.div:exact", "N.div:remainder"},
 	},
 	"C07": {
-		id: "C07", models: []model{}, trace: "Trace_Core", batch: 2,
+		id: "C07", trace: "Trace_Core", batch: 2,
+		models: []model{
+			{mod: "MC_Kernels", quick: map[string]string{"KW": "1", "NMax": "2"}, thorough: map[string]string{"KW": "1", "NMax": "3"}},
+			{mod: "MC_Kernels", quick: map[string]string{"KW": "2", "NMax": "2"}}},
 		gen: func(g *gen.G, thor bool) []gen.Program {
 			return append(gen.Kernel(g, thor), append(gen.Round(g, n(thor, 300, 4000)), gen.Nat(g, n(thor, 8, 40), 20)...)...)
 		},
